@@ -1029,3 +1029,54 @@ def unit_writer_close():
 def m_base_close_ref(m):
     def f(ex, st, recv, args, kw): yield from m(ex, st, None, args, kw)
     return f
+
+
+# ---------------------------------------------------------------- C04 end to end (bounded): verdict, row number, column and field named
+def unit_c04_sweep():
+    LINES = ["1,ab", "x,ab", "", "7", "1,ab,c", "2,abcd", "3,", ",ab", "4,q"]
+    def run(ctx):
+        from cutplace import interface, validio, errors
+        def cid(header):
+            return interface.create_cid_from_string("d,format,delimited\nd,header,%d\nf,id,,,1...3,Integer\nf,name,,x,...3\nc,distinct ids,IsUnique,id\n" % header)
+        def cases():
+            for header in (0, 1):
+                for n in (1, 2, 3) if not ctx.thorough else (1, 2, 3, 4):
+                    for ls in itertools.product(range(len(LINES)), repeat=n):
+                        if n == 3 and (sum(ls) % 3) and not ctx.thorough: continue
+                        yield (header, [LINES[i] for i in ls])
+        def expect(header, lines):
+            """per data row: None (accepted) or (row number 1-based incl. header, column 1-based, field name or None for a count / check problem)"""
+            out = []; seen = {}
+            for i, line in enumerate(lines):
+                if i < header: continue
+                items = [] if line == "" else line.split(",")
+                if len(items) != 2: out.append((i + 1, min(len(items), 2) + 1 if len(items) < 2 else 3, None)); continue
+                try: v = int(items[0]); ok0 = items[0] != "" and len(items[0]) <= 3
+                except ValueError: ok0 = False
+                if not ok0: out.append((i + 1, 1, "id")); continue
+                if len(items[1]) > 3: out.append((i + 1, 2, "name")); continue
+                if items[0] in seen: out.append((i + 1, None, None)); continue        # a row check failed: only the row is pinned down by the statement
+                seen[items[0]] = i; out.append(None)
+            return out
+        def check(c):
+            header, lines = c
+            text = "".join(l + "\n" for l in lines)
+            try: got = list(validio.rows(cid(header), io.StringIO(text), on_error="yield"))
+            except Exception as e: return {"expected": "one item per data row", "observed": repr(e)}
+            exp = expect(header, lines)
+            if len(got) != len(exp): return {"expected": "%d items (one per data row, blank lines included)" % len(exp), "observed": "%d items: %r" % (len(got), got)}
+            for g, e in zip(got, exp):
+                if e is None:
+                    if isinstance(g, Exception): return {"expected": "row accepted", "observed": str(g)}
+                    continue
+                if not isinstance(g, errors.DataError): return {"expected": "a data error at row %d" % e[0], "observed": repr(g)}
+                loc = g.location
+                if loc is None or loc.line + 1 != e[0]: return {"expected": "error located at row %d (1-based, header rows counted)" % e[0], "observed": str(g)}
+                if e[1] is not None and e[2] is not None and loc.cell + 1 != e[1]: return {"expected": "error located at column %d" % e[1], "observed": str(g)}
+                if e[2] is not None and e[2] not in str(g): return {"expected": "message naming %r" % e[2], "observed": str(g)}
+                if "<io>" not in str(loc): return {"expected": "location naming the input", "observed": str(loc)}
+            return None
+        return [sweep("C04/sweep/verdict, row number, column and culprit per row through validio.rows", cases(), check, "bounded",
+                      "delimited CID (Integer id 1...3 chars, Text name <= 3, IsUnique id) x header 0-1 x all data texts of 1-3 lines over 9 line kinds (accepted, bad field 1 / 2, blank line, 1 or 3 items, empty cells, duplicate)",
+                      describe=lambda c: {"header": c[0], "lines": c[1]}, function="validio.rows", unit="C04.sweep")]
+    return NativeUnit("C04.sweep", "bounded end-to-end sweep: per-row verdicts and error locations (row incl. header rows, first offending column, culprit named)", ["C04"], run, kind="bounded")
